@@ -148,3 +148,20 @@ Definition smismatch (c : scase) : bool :=
 Definition sviolation (c : scase) : bool := sin_dom c && sspec_fail c.
 (* ... of which those where only the [stable] clause fails are the normalised-collision defect *)
 Definition sunstable (c : scase) : bool := sviolation c && negb (sin_thm_dom c).
+
+(* Localisation of a violation (used only to NAME it): positions, in the observed instance's
+   attribute list, of the attributes that do not conform to their declaration / are undeclared in a
+   closed class.  Empty for a failure of _required, of the hook, or of a nested instance. *)
+Definition sbad_attrs (c : scase) : list nat :=
+  match sc_obs c with
+  | Ok (PStruct cn a) =>
+      match find_class (sc_env c) cn with
+      | Some cd =>
+          indices_where (fun p => match find_field (c_fields cd) (fst p) with
+                                  | Some fd => negb (conf (sre c) (sc_env c) (fd_field fd) (snd p))
+                                  | None => negb (c_additional cd)
+                                  end) a 0
+      | None => []
+      end
+  | _ => []
+  end.
